@@ -31,6 +31,13 @@ type Req struct {
 	AltEntry   []string `json:"alt_entry,omitempty"`
 	Recv       string   `json:"recv,omitempty"`
 	NoPrepare  bool     `json:"no_prepare,omitempty"`
+	Order      []int    `json:"order,omitempty"`
+}
+
+// Site is one dynamic range-over-map occurrence (overlay build).
+type Site struct {
+	ID string `json:"id"`
+	N  int    `json:"n"`
 }
 
 type Node struct {
@@ -65,6 +72,7 @@ type Resp struct {
 	Stderr  []byte   `json:"stderr,omitempty"`
 	OutFile []byte   `json:"out_file,omitempty"`
 	Classes []string `json:"classes,omitempty"`
+	Sites   []Site   `json:"sites,omitempty"`
 	// Hung is set by the client when the watchdog fired.
 	Hung bool `json:"-"`
 }
